@@ -46,6 +46,20 @@ func (s TokSpec) build() (final *biscuit.Biscuit, stages []*biscuit.Biscuit, pub
 	}
 	stages = append(stages, tok)
 	for i, b := range s.Blocks[1:] {
+		if s.RngKey%3 == 0 {
+			// what a holder does with a token before attenuating it: look something up, print it,
+			// authorize a request -- all with strings the token has never seen; none of it may leave
+			// a trace in the token that is derived next
+			probe := fmt.Sprintf("holder_probe_%d", i)
+			_, _ = tok.GetBlockID(bridge.ToFact(m.P(probe, m.Str(probe+"_a"), m.Str(probe+"_b"))))
+			_ = tok.String()
+			if a, aerr := tok.AuthorizerFor(biscuit.WithSingularRootPublicKey(pub), bridge.WorldOpts()); aerr == nil {
+				a.AddFact(bridge.ToFact(m.P(probe, m.Str(probe+"_c"))))
+				a.AddRule(bridge.ToRule(m.Rule{Head: m.P(probe+"_out", m.Var("x")), Body: []m.Pred{m.P(probe, m.Var("x"))},
+					Exprs: []*m.Expr{m.Bin("==", m.Bin("+", m.V(m.Var("x")), m.V(m.Str("_sfx"))), m.V(m.Str(probe+"_c_sfx")))}}))
+				_ = a.Authorize()
+			}
+		}
 		tok, err = bridge.AppendBlock(tok, rng, b)
 		if err != nil {
 			return nil, nil, pub, fmt.Errorf("append block %d: %w", i+1, err)
@@ -214,4 +228,20 @@ func forkAndRecheck(stages []*biscuit.Biscuit, pub ed25519.PublicKey, rngKey uin
 		return "siblings share their last revocation identifier"
 	}
 	return ""
+}
+
+// encodeBlocksForeign encodes like another implementation of the format would: the optional
+// context field is left out when the context is empty (this library writes an empty string).
+// Same meaning, different bytes.
+func encodeBlocksForeign(blocks []m.Block) [][]byte {
+	in := &wire.Interner{T: &wire.Table{}}
+	var out [][]byte
+	for _, b := range blocks {
+		wb := in.Block(b.Postfix())
+		if wb.Context != nil && *wb.Context == "" {
+			wb.Context = nil
+		}
+		out = append(out, wb.Encode())
+	}
+	return out
 }
